@@ -101,6 +101,33 @@ fn inner_models(tier: Tier) -> Vec<(Vec<VarDecl>, Con)> {
             }
         }
     }
+    // Boolean linear constraints, clauses and conjunctions over literals (only the half-reified
+    // form exists for the Boolean linear ones); weights of both signs
+    let (p0, n0, p1, n1) = (Lit::p(0), Lit::n(0), Lit::p(1), Lit::n(1));
+    let lits2 = vec![VarDecl::lit(), VarDecl::lit()];
+    for c in [
+        Con::BoolLinLe(vec![2, -3], vec![p0, p1], 0),
+        Con::BoolLinLe(vec![-1, -2], vec![p0, p1], -2),
+        Con::BoolLinLe(vec![3, -2], vec![p0, p1], 0),
+        Con::BoolLinLe(vec![-3, 1], vec![p0, p1], -3),
+        Con::BoolLinLe(vec![1, 2], vec![p0, n1], 1),
+        Con::BoolLinLe(vec![1, 1], vec![p0, p1], 1),
+        Con::BoolLinLe(vec![-2, 3], vec![n0, n1], 0),
+        Con::LitClause(vec![p0, p1]),
+        Con::LitClause(vec![n0, p1]),
+        Con::LitConj(vec![p0, n1]),
+    ] {
+        out.push((lits2.clone(), c));
+    }
+    let lits3 = vec![VarDecl::lit(), VarDecl::lit(), VarDecl::interval(-1, 2)];
+    for c in [
+        Con::BoolLinEq(vec![1, 2], vec![p0, p1], 2),
+        Con::BoolLinEq(vec![-1, 2], vec![p0, p1], 2),
+        Con::BoolLinEq(vec![1, -1], vec![p0, n1], 2),
+        Con::BoolLinLe(vec![2, -1], vec![p0, p1], 0),
+    ] {
+        out.push((lits3.clone(), c));
+    }
     out
 }
 
@@ -202,7 +229,7 @@ pub fn reified_models(tier: Tier) -> Vec<Model> {
                 k += 1;
                 // the wrapped linear propagator is the one that reports inconsistencies to the
                 // reification wrapper (which caches them): these cases are taken more densely
-                let linear = matches!(inner, Con::LinLe(..) | Con::LinEq(..) | Con::BinLe(..) | Con::BinLt(..) | Con::BinEq(..));
+                let linear = matches!(inner, Con::LinLe(..) | Con::LinEq(..) | Con::BinLe(..) | Con::BinLt(..) | Con::BinEq(..) | Con::BoolLinLe(..) | Con::BoolLinEq(..) | Con::LitClause(..) | Con::LitConj(..));
                 if k % (if linear { linear_stride } else { stride }) != 0 {
                     continue;
                 }
